@@ -960,6 +960,33 @@ func c19constructors(c *core.Ctx) {
 			}
 			// stores into the direction field of obj (possibly through the embedded struct), all before the return
 			found := false
+			// an inner composite literal may be built in a temporary of its own and copied whole into the embedded field
+			// (the newer SSA builder does): such a temporary is part of the object
+			parts := map[ssa.Value]bool{obj: true}
+			for round := 0; round < 2; round++ {
+				core.Instrs(f, func(i2 ssa.Instruction) {
+					st, isS := i2.(*ssa.Store)
+					if !isS {
+						return
+					}
+					root := st.Addr
+					for {
+						x, isX := root.(*ssa.FieldAddr)
+						if !isX {
+							break
+						}
+						root = x.X
+					}
+					if !parts[root] {
+						return
+					}
+					if ld, isLd := st.Val.(*ssa.UnOp); isLd && ld.Op == token.MUL {
+						if a, isA := ld.X.(*ssa.Alloc); isA {
+							parts[a] = true
+						}
+					}
+				})
+			}
 			core.Instrs(f, func(i2 ssa.Instruction) {
 				st, isS := i2.(*ssa.Store)
 				if !isS {
@@ -977,7 +1004,7 @@ func c19constructors(c *core.Ctx) {
 					}
 					root = x.X
 				}
-				if root != ssa.Value(obj) {
+				if !parts[root] {
 					return
 				}
 				if core.FieldKey(fa) == k {
